@@ -416,6 +416,8 @@ func checkC07(w *World, r *Report) {
 	ruleTermination(w, r, "C07")
 	ruleDecorWidthAccounting(w, r, "C07")
 	ruleSpacers(w, r, "C07")
+	ruleComponentWidths(w, r, "C07")
+	ruleTermSize(w, r, "C07")
 	ruleStatisticsFaithful(w, r, "C07")
 	ruleRenderSize(w, r, "C07")
 	ruleOptionTable(w, r, "C07", map[string][3]string{"WithWidth": {tPState, "reqWidth", "param"}, "BarWidth": {tBState, "reqWidth", "param"}, "BarFillerTrim": {tBState, "trimSpace", "true"}})
